@@ -32,6 +32,8 @@ type verifTok struct {
 	vocab    *Vocabulary
 	maxRunes int  // longest vocabulary entry, in runes
 	pre      string // BPE: pre-tokenizer pattern
+	pool     []string        // random vocabularies: strings the texts are built from
+	byteIDs  map[int32]uint32 // SPM: id of a byte token -> its token type
 	covering bool // every (remapped) byte is a token
 }
 
@@ -217,6 +219,12 @@ func verifSynthBPE(enc [256]int, drop []byte) *Vocabulary {
 	return v
 }
 
+var verifSPMPieces = []string{"▁", "e", "t", "a", "o", "n", "i", "s", "r", "h", "l", "d", "u", "c", "m", "▁t", "he", "▁the", "in", "▁a", "er", "an",
+		"▁▁", "▁▁▁▁", "th", "the", "re", "on", "▁s", "▁w", "ing", "▁in", "at", "en", "nd", "▁and", "1", "2", "3", "12", "123", "0", "00",
+		"你", "好", "你好", "世", "界", "世界", "日本", "日", "本", "語", "م", "ر", "ح", "ب", "ا", "مر", "مرحبا", "é", "è", "ü", "ñ", "́", "é",
+		"👍", "👨", "‍", "👩", "👨‍👩", "❤", "️", "❤️", ".", ",", "!", "?", "..", "...", "\n", "\n\n", "\t", "aa", "aaa", "aaaa", "ab", "ba", "aba",
+		"x", "y", "xy", "yx", "xyx", "w", "wo", "wor", "world", "▁world", "hel", "hello", "▁hello", "lo", "ll", "<", ">", "0x", "<0", "<0x"}
+
 // verifSynthSPM: a sentencepiece-style vocabulary laid out like gemma 3 (ids 105/106 = turn markers).
 func verifSynthSPM() *Vocabulary {
 	v := &Vocabulary{}
@@ -229,11 +237,7 @@ func verifSynthSPM() *Vocabulary {
 	add("<eos>", TOKEN_TYPE_CONTROL, 0)
 	add("<bos>", TOKEN_TYPE_CONTROL, 0)
 	add("<unk>", TOKEN_TYPE_UNKNOWN, 0)
-	normal := []string{"▁", "e", "t", "a", "o", "n", "i", "s", "r", "h", "l", "d", "u", "c", "m", "▁t", "he", "▁the", "in", "▁a", "er", "an",
-		"▁▁", "▁▁▁▁", "th", "the", "re", "on", "▁s", "▁w", "ing", "▁in", "at", "en", "nd", "▁and", "1", "2", "3", "12", "123", "0", "00",
-		"你", "好", "你好", "世", "界", "世界", "日本", "日", "本", "語", "م", "ر", "ح", "ب", "ا", "مر", "مرحبا", "é", "è", "ü", "ñ", "́", "é",
-		"👍", "👨", "‍", "👩", "👨‍👩", "❤", "️", "❤️", ".", ",", "!", "?", "..", "...", "\n", "\n\n", "\t", "aa", "aaa", "aaaa", "ab", "ba", "aba",
-		"x", "y", "xy", "yx", "xyx", "w", "wo", "wor", "world", "▁world", "hel", "hello", "▁hello", "lo", "ll", "<", ">", "0x", "<0", "<0x"}
+	normal := verifSPMPieces
 	for i, s := range normal {
 		if len(v.Values) == 105 {
 			add("<start_of_turn>", TOKEN_TYPE_USER_DEFINED, 0)
@@ -256,6 +260,241 @@ func verifSynthSPM() *Vocabulary {
 	v.BOS, v.EOS, v.EOT = 2, 1, 106
 	v.AddBOS = true
 	return v
+}
+
+// ---- random vocabularies: the theorems quantify over EVERY vocabulary, so merges and tokens are generated
+// independently (merge products that are not tokens, tokens without a merge path, duplicate merge lines,
+// merges whose parts are not tokens, no merges at all, single-byte tokens only, missing bytes), and the SPM
+// byte tokens carry every token type.  A vocabulary is a pure function of its index, which is part of its name
+// ("rbpe<idx>", "rspm<idx>"), so a case line replays without the seed.
+
+func verifRandBPE(enc [256]int, pre string, idx int, out *zzverif.Out) *verifTok {
+	r := zzverif.NewRng(uint64(idx)*7919 + 17).Fork()
+	v := &Vocabulary{BOS: -1, EOS: -1, EOT: -1}
+	add := func(s string, ty uint32) {
+		v.Values = append(v.Values, s)
+		v.Types = append(v.Types, ty)
+	}
+	m := func(b string) string {
+		var sb strings.Builder
+		for _, c := range []byte(b) {
+			sb.WriteRune(rune(enc[c]))
+		}
+		return sb.String()
+	}
+	shape := map[string]bool{}
+	kind := r.Intn(8) // 0: no merges; 1: single-byte tokens only; else general
+	letters := []byte("abcehrtxy 12\n")
+	var alpha []byte
+	for len(alpha) < r.Range(3, 6) {
+		alpha = append(alpha, zzverif.Pick(r, letters))
+	}
+	var whole []string // whole multi-byte characters (texts must be valid UTF-8)
+	if r.Chance(1, 3) {
+		c := zzverif.Pick(r, []string{"\xe4\xbd\xa0", "\xc3\xa9", "\xf0\x9f\x98\x80"})
+		alpha = append(alpha, []byte(c)...)
+		whole = append(whole, c, c)
+	}
+	dropped := map[byte]bool{}
+	covering := true
+	if r.Chance(1, 5) {
+		covering = false
+		shape["missing_bytes"] = true
+		for j := r.Range(1, 2); j > 0; j-- {
+			dropped[zzverif.Pick(r, alpha)] = true
+		}
+	}
+	start := r.Intn(256)
+	for i := 0; i < 256; i++ {
+		b := byte((i+start)*37 + 11)
+		if enc[b] < 0 || dropped[b] {
+			add(fmt.Sprintf("[unused%d]", i), TOKEN_TYPE_UNUSED)
+			continue
+		}
+		add(string(rune(enc[b])), TOKEN_TYPE_NORMAL)
+	}
+	var pool []string
+	for _, b := range alpha {
+		pool = append(pool, string([]byte{b}))
+	}
+	isTok := map[string]bool{}
+	for _, p := range pool {
+		isTok[p] = !dropped[p[0]]
+	}
+	if kind == 0 {
+		shape["no_merges"] = true
+	} else {
+		for n := r.Range(3, 24); n > 0; n-- {
+			l, rr := zzverif.Pick(r, pool), zzverif.Pick(r, pool)
+			if r.Chance(1, 8) {
+				l = string([]byte{zzverif.Pick(r, alpha), zzverif.Pick(r, alpha)})
+			}
+			if len(l)+len(rr) > 9 {
+				continue
+			}
+			if !isTok[l] || !isTok[rr] {
+				shape["merge_parts_not_tokens"] = true
+			}
+			line := m(l) + " " + m(rr)
+			for _, old := range v.Merges {
+				if old == line {
+					shape["duplicate_merge_lines"] = true
+				}
+			}
+			v.Merges = append(v.Merges, line)
+			if r.Chance(1, 10) {
+				v.Merges = append(v.Merges, line)
+				shape["duplicate_merge_lines"] = true
+			}
+			prod := l + rr
+			if kind != 1 && r.Chance(7, 10) {
+				add(m(prod), TOKEN_TYPE_NORMAL)
+				isTok[prod] = true
+			} else if !isTok[prod] {
+				shape["merge_product_not_token"] = true
+			}
+			if r.Chance(4, 5) {
+				pool = append(pool, prod)
+			}
+		}
+	}
+	if kind == 1 {
+		shape["single_byte_tokens_only"] = true
+	} else {
+		for n := r.Intn(4); n > 0; n-- { // tokens without a merge path
+			t := ""
+			for j := r.Range(2, 4); j > 0; j-- {
+				t += string([]byte{zzverif.Pick(r, alpha)})
+			}
+			if utf8.ValidString(m(t)) {
+				add(m(t), TOKEN_TYPE_NORMAL)
+				shape["token_without_merge_path"] = true
+				pool = append(pool, t)
+			}
+		}
+	}
+	add("<|sys|>", TOKEN_TYPE_CONTROL)
+	add("<|end|>", TOKEN_TYPE_CONTROL)
+	out.Count("vocab_bpe_random")
+	for k := range shape {
+		out.Count("vocab_bpe_shape_" + k)
+	}
+	if covering {
+		out.Count("vocab_bpe_shape_covering")
+	}
+	bpe := NewBytePairEncoding(pre, v)
+	// texts are built from the valid-UTF-8 members of the pool and the whole characters
+	for _, p := range pool {
+		if utf8.ValidString(p) {
+			whole = append(whole, p)
+		}
+	}
+	return &verifTok{name: fmt.Sprintf("rbpe%d", idx), family: "bpe", tp: bpe, bpe: &bpe, vocab: v, maxRunes: verifMaxRunes(v), covering: covering, pre: pre, pool: whole}
+}
+
+var verifTypeNames = map[uint32]string{TOKEN_TYPE_NORMAL: "normal", TOKEN_TYPE_UNKNOWN: "unknown", TOKEN_TYPE_CONTROL: "control",
+	TOKEN_TYPE_USER_DEFINED: "user_defined", TOKEN_TYPE_UNUSED: "unused", TOKEN_TYPE_BYTE: "byte"}
+
+func verifRandSPM(idx int, out *zzverif.Out) *verifTok {
+	r := zzverif.NewRng(uint64(idx)*104729 + 5).Fork()
+	v := &Vocabulary{EOT: -1}
+	add := func(s string, ty uint32, score float32) {
+		v.Values = append(v.Values, s)
+		v.Types = append(v.Types, ty)
+		v.Scores = append(v.Scores, score)
+	}
+	add("<pad>", TOKEN_TYPE_CONTROL, 0)
+	add("<eos>", TOKEN_TYPE_CONTROL, 0)
+	add("<bos>", TOKEN_TYPE_CONTROL, 0)
+	add("<unk>", TOKEN_TYPE_UNKNOWN, 0)
+	v.BOS, v.EOS, v.AddBOS = 2, 1, r.Bool()
+	keep := []int{2, 5, 9}[r.Intn(3)] // keep a piece with probability keep/10
+	ties := r.Range(1, 12)
+	hasSep := false
+	var pool []string
+	for _, p := range verifSPMPieces {
+		if p == "▁" {
+			if !r.Chance(5, 6) {
+				continue
+			}
+			hasSep = true
+		} else if !r.Chance(keep, 10) {
+			continue
+		}
+		add(p, TOKEN_TYPE_NORMAL, -float32(r.Intn(ties)))
+		pool = append(pool, strings.ReplaceAll(p, "▁", " "))
+	}
+	// characters without a piece are what the byte fallback is for
+	pool = append(pool, "z", "q", "é", "ß", "Ж", "你", "界", "語", "👍", "€", "\u00a0", "\t", "Z", "k")
+	modes := []uint32{TOKEN_TYPE_BYTE, TOKEN_TYPE_BYTE, TOKEN_TYPE_NORMAL, TOKEN_TYPE_USER_DEFINED, TOKEN_TYPE_CONTROL, TOKEN_TYPE_UNUSED, TOKEN_TYPE_UNKNOWN, 0}
+	mode := modes[r.Intn(len(modes))]
+	full := r.Chance(5, 6)
+	byteIDs := map[int32]uint32{}
+	allBytes := true
+	for b := 0; b < 256; b++ {
+		if !full && r.Chance(1, 12) {
+			allBytes = false
+			continue
+		}
+		ty := mode
+		if ty == 0 {
+			ty = uint32(r.Range(TOKEN_TYPE_NORMAL, TOKEN_TYPE_BYTE))
+		}
+		byteIDs[int32(len(v.Values))] = ty
+		add(fmt.Sprintf("<0x%02X>", b), ty, 0)
+	}
+	out.Count("vocab_spm_random")
+	if mode == 0 {
+		out.Count("vocab_spm_bytetokens_mixed_types")
+	} else {
+		out.Count("vocab_spm_bytetokens_" + verifTypeNames[mode])
+	}
+	if !hasSep {
+		out.Count("vocab_spm_no_sep_piece")
+	}
+	if !allBytes {
+		out.Count("vocab_spm_missing_byte_tokens")
+	}
+	spm := NewSentencePieceModel(v)
+	// the round-trip theorem's vocabulary hypotheses: all 256 byte tokens and the piece "▁"
+	return &verifTok{name: fmt.Sprintf("rspm%d", idx), family: "spm", tp: spm, vocab: v, maxRunes: verifMaxRunes(v), covering: allBytes && hasSep, pool: pool, byteIDs: byteIDs}
+}
+
+// verifRandTok builds the random vocabulary a name denotes ("rbpe<idx>" / "rspm<idx>").
+func verifRandTok(enc [256]int, pre, name string, out *zzverif.Out) *verifTok {
+	if n, err := strconv.Atoi(strings.TrimPrefix(name, "rbpe")); err == nil && strings.HasPrefix(name, "rbpe") {
+		return verifRandBPE(enc, pre, n, out)
+	}
+	if n, err := strconv.Atoi(strings.TrimPrefix(name, "rspm")); err == nil && strings.HasPrefix(name, "rspm") {
+		return verifRandSPM(n, out)
+	}
+	return nil
+}
+
+// texts for a random vocabulary: concatenations of the strings its tokens / merges are made of
+func verifPoolSegs(r *zzverif.Rng, tk *verifTok, out *zzverif.Out) []verifSeg {
+	var segs []verifSeg
+	for n := r.Pick3(1, 3, 8); n > 0; n-- {
+		s := ""
+		for j := r.Pick3(1, 4, 10); j > 0; j-- {
+			s += zzverif.Pick(r, tk.pool)
+		}
+		if r.Chance(1, 3) {
+			s += zzverif.Pick(r, []string{" ", "  ", "\n", ".", "1"})
+		}
+		segs = append(segs, verifSeg{s, false})
+		out.Count("seg_vocab_pool")
+		if r.Chance(1, 8) {
+			for _, sp := range tk.vocab.SpecialVocabulary() {
+				if strings.HasPrefix(sp, "<") && !strings.HasPrefix(sp, "<0x") && r.Chance(1, 3) {
+					segs = append(segs, verifSeg{sp, true})
+					out.Count("seg_special")
+					break
+				}
+			}
+		}
+	}
+	return segs
 }
 
 func verifMaxRunes(v *Vocabulary) int {
@@ -537,6 +776,12 @@ func (tk *verifTok) opBPE(enc [256]int, text string, add bool, out *zzverif.Out)
 	}
 	out.Add("l1_vocab_entries", len(ents))
 	out.Add("l1_merge_entries", len(merges))
+	for k := range merges {
+		if _, ok := ents[k.l+k.r]; !ok {
+			out.Count("cases_bpe_merge_candidate_with_nontoken_product")
+			break
+		}
+	}
 	return sb.String()
 }
 
@@ -664,7 +909,11 @@ func (tk *verifTok) runCase(enc [256]int, segs []verifSeg, add bool, out *zzveri
 		text += s.s
 	}
 	out.Count("cases")
-	out.Count("cases_" + tk.name)
+	if tk.pool != nil {
+		out.Count("cases_random_" + tk.family + "_vocabularies")
+	} else {
+		out.Count("cases_" + tk.name)
+	}
 	cl := tk.caseLine(text, add)
 
 	// ---- L1
@@ -688,6 +937,18 @@ func (tk *verifTok) runCase(enc [256]int, segs []verifSeg, add bool, out *zzveri
 	}
 	out.Case(op, impl)
 	out.Add("tokens", len(ids))
+	if tk.byteIDs != nil {
+		seen := map[uint32]bool{}
+		for _, id := range ids {
+			if ty, ok := tk.byteIDs[id]; ok && !seen[ty] {
+				seen[ty] = true
+				out.Count("cases_spm_byte_fallback_type_" + verifTypeNames[ty])
+			}
+		}
+		if len(seen) > 0 {
+			out.Count("cases_spm_byte_fallback")
+		}
+	}
 
 	// ---- L2 (property predicates on the real code only; addSpecial = false)
 	if tk.family == "bpe" {
@@ -930,6 +1191,13 @@ func TestVerifC20(t *testing.T) {
 	for _, tk := range toks {
 		byName[tk.name] = tk
 	}
+	_, pats := verifPatterns()
+	lookup := func(name string) *verifTok {
+		if byName[name] == nil {
+			byName[name] = verifRandTok(enc, pats[0], name, out)
+		}
+		return byName[name]
+	}
 
 	if p := os.Getenv("VERIF_REPLAY"); p != "" {
 		raw, err := os.ReadFile(p)
@@ -937,7 +1205,7 @@ func TestVerifC20(t *testing.T) {
 			t.Fatal(err)
 		}
 		f := strings.Fields(string(raw))
-		if len(f) != 3 || byName[f[0]] == nil {
+		if len(f) != 3 || lookup(f[0]) == nil {
 			t.Fatalf("bad replay line %q", raw)
 		}
 		byName[f[0]].runCase(enc, []verifSeg{{string(zzverif.Unhex(f[2])), false}}, f[1] == "1", out)
@@ -947,7 +1215,7 @@ func TestVerifC20(t *testing.T) {
 	for _, file := range verifCorpus() {
 		for _, line := range strings.Split(file, "\n") {
 			f := strings.Fields(line)
-			if len(f) == 3 && byName[f[0]] != nil {
+			if len(f) == 3 && lookup(f[0]) != nil {
 				byName[f[0]].runCase(enc, []verifSeg{{string(zzverif.Unhex(f[2])), false}}, f[1] == "1", out)
 				out.Count("corpus_cases")
 			}
@@ -1000,6 +1268,26 @@ func TestVerifC20(t *testing.T) {
 			pick = append(pick, tk)
 		}
 	}
+	// random vocabularies (index = seed*10000 + j; the name carries the index)
+	var rtoks []*verifTok
+	nv := 40
+	if os.Getenv("VERIF_TIER") == "thorough" {
+		nv = 300
+	}
+	for j := 0; j < nv; j++ {
+		idx := int(zzverif.Seed()%100000)*10000 + j
+		if j%5 < 3 {
+			rtoks = append(rtoks, lookup(fmt.Sprintf("rbpe%d", idx)))
+		} else {
+			rtoks = append(rtoks, lookup(fmt.Sprintf("rspm%d", idx)))
+		}
+	}
+	for _, tk := range rtoks {
+		for _, s := range []string{"abc", "hellohello twice", "her there", "aaaa abab", "café 你好", "a b  c", "z", "é", "<0x41>"} {
+			tk.runCase(enc, []verifSeg{{s, false}}, false, out)
+			out.Count("fixed_cases")
+		}
+	}
 	n := zzverif.EnvInt("VERIF_N", 2000)
 	// NewRng(seed) streams for consecutive seeds are one-step shifts of each other (SplitMix64 state =
 	// seed * increment): fork once so that different seeds give unrelated case sequences.
@@ -1007,7 +1295,17 @@ func TestVerifC20(t *testing.T) {
 	for i := 0; i < n; i++ {
 		r := root.Fork()
 		tk := pick[r.Intn(len(pick))]
-		segs := verifGenSegs(r, tk, out)
+		var segs []verifSeg
+		if r.Chance(5, 12) { // a random vocabulary
+			tk = rtoks[r.Intn(len(rtoks))]
+			out.Count("cases_random_vocab_" + tk.family)
+			if r.Chance(3, 4) {
+				segs = verifPoolSegs(r, tk, out)
+			}
+		}
+		if segs == nil {
+			segs = verifGenSegs(r, tk, out)
+		}
 		tk.runCase(enc, segs, r.Chance(1, 4), out)
 	}
 }
